@@ -160,3 +160,21 @@ Proof.
     + apply concat_map_concat.
     + rewrite map_id. reflexivity.
 Qed.
+
+Lemma shape_eqb_eq a b : shape_eqb a b = true -> a = b.
+Proof.
+  unfold shape_eqb. revert b; induction a as [|x a IH]; intros [|y b]; cbn; try discriminate; auto.
+  intros H. apply andb_true_iff in H as [H1 H2].
+  apply andb_true_iff in H2 as [H2 H3]. apply Nat.eqb_eq in H2. subst. f_equal. apply IH.
+  rewrite H1. exact H3.
+Qed.
+Lemma uniform_upd {X} m (l : list (list X)) i row : uniform m l -> length row = m -> uniform m (upd l i row).
+Proof.
+  intros H Hr. revert i; induction H as [|h t Hh Ht IH]; intros [|i]; cbn; try constructor; auto.
+  apply IH.
+Qed.
+Lemma splice_is_upd {X} (l : list X) i o : i < length l -> firstn i l ++ [o] ++ skipn (i + 1) l = upd l i o.
+Proof.
+  revert i; induction l as [|h t IH]; intros i Hi; [cbn in Hi; lia|].
+  destruct i as [|i]; cbn; [reflexivity|]. f_equal. apply IH. cbn in Hi; lia.
+Qed.
